@@ -3,9 +3,9 @@ REGISTRY = {
     'C01': ['base_core', 'handles', 'connect', 'result'],
     'C06': ['base_core', 'handles', 'connect'],
     'C02': ['core', 'result'],
-    'C03': ['base_core', 'handles', 'core', 'event', 'strand', 'when', 'intrusive_ptr', 'connect'],
-    'C04': ['base_core', 'strand', 'event', 'coro_mutex'],
-    'C05': ['thread_pool', 'strand', 'core', 'handles'],
+    'C03': ['base_core', 'handles', 'core', 'event', 'strand', 'when', 'intrusive_ptr', 'connect', 'ownership'],
+    'C04': ['base_core', 'strand', 'event', 'coro_mutex', 'spinlock'],
+    'C05': ['thread_pool', 'strand', 'core', 'handles', 'ownership'],
     'C07': ['strand'],
     'C08': ['thread_pool'],
     'C09': ['when'],
@@ -14,7 +14,7 @@ REGISTRY = {
     'C12': ['core', 'handles'],
     'C13': ['coro', 'base_core', 'event'],
     'C14': ['coro_mutex', 'guards'],
-    'C15': ['shared_mutex', 'coro_mutex', 'guards'],
+    'C15': ['shared_mutex', 'coro_mutex', 'guards', 'spinlock'],
     'C16': ['event', 'base_core'],
     'C17': ['fault_sched', 'sleep_map'],
     'C18': ['fiber_locks', 'sleep_map', 'tls'],
@@ -83,7 +83,8 @@ CLAIMS = {
                 'AtomicCounter::Sub (Delete iff the decrement reached zero), TimedWaiter two-owner release, Retire (move then release once), ResultCore::Impl '
                 'thresholds, Drop core, Promise / Future / Task destructors (release exactly once iff still owned), strand / event walks (no access after '
                 'Call / Drop), WhenAll destructors (every input retired or released exactly once), UniqueJob via the executor contracts. '
-                'Unit intrusive_ptr: every constructor, assignment, Release, Swap, Reset and the destructor of IntrusivePtr<T> (one handle == one reference; copies take one, moves and NoRefTag transfer, the destructor gives one back iff non-null, assignment takes the new reference before giving back the old one).',
+                'Unit intrusive_ptr: every constructor, assignment, Release, Swap, Reset and the destructor of IntrusivePtr<T> (one handle == one reference; copies take one, moves and NoRefTag transfer, the destructor gives one back iff non-null, assignment takes the new reference before giving back the old one). '
+                'Unit ownership: Helper::IncRef/DecRef/GetRef (exactly one unit), OneCounter (single owner: Sub destroys once), DefaultDeleter, MakeUnique / MakeShared (initial count, adopted without IncRef), UniqueJob.',
         'note': 'Per-function release-exactly-once and no-use-after-release; quiescent leak-freedom of a whole pipeline is the induction over these per-object '
                 'contracts (meta-argument, stated, not machine-checked); destructors of user functors / payloads and the coroutine frame are outside.',
         'design': 'DESIGN.md 6 C03, 5.E',
@@ -104,7 +105,8 @@ CLAIMS = {
         'text': 'Executor contracts proved per implementation: Inline<Stopped>::Submit (Call xor Drop, Drop iff the stopped instance), '
                 'ManualExecutor::Submit/Drain (loop contract: every queued job Called exactly once), Strand (Submit/Call/Drop, see C07), '
                 'FairThreadPool (Submit/Loop/Stop/SoftStop/HardStop under a monitor invariant: accepted iff not stopped at the deciding step, '
-                'else Dropped exactly once outside the lock), against one Call-xor-Drop interface contract with a ghost per-job fate.',
+                'else Dropped exactly once outside the lock), against one Call-xor-Drop interface contract with a ghost per-job fate. '
+                'Unit ownership: yaclib::Submit(executor, f) (one job made from f, handed over exactly once), UniqueJob::Call (functor once, then frees itself) / Drop (frees itself, functor never run), SafeCall::Call (an exception does not escape).',
         'note': 'Pipeline side: Core::Impl submits exactly once to the step\'s executor iff IsCall and never for ThenInline, TransferExecutorTo '
                 '(keep own executor else inherit: moved from unique, copied from shared), detail::SetCallback stores the given executor, Core::Drop = '
                 'Call on Error(Stop); OnAwaiter is in unit coro when registered; "runs inside e" for third-party executors is the interface contract, trusted.',
@@ -207,7 +209,8 @@ CLAIMS = {
                 'AwaitLockShared, AwaitLock, UnlockHereShared, UnlockHere, SlowUnlock, PassReaders, RunWriter, RunReaders (loop contract), Run - is proved, under arbitrary interference at each of its atomic operations and '
                 'lock acquisitions, to re-establish the invariant after every own step, to decrement a counter only by a token it owns, and to meet its postcondition (Try* succeed only when compatible; each unlock '
                 'releases, or grants exactly the next writer / all queued readers / pass credits as the property prescribes, each granted coroutine submitted exactly once); the writers queue is a ghost pool of symbolic '
-                'length; lemma: the member initialisers establish the invariant. LockAwaiter<Base, Shared> ready / suspend (unit coro_mutex).',
+                'length; lemma: the member initialisers establish the invariant. LockAwaiter<Base, Shared> ready / suspend (unit coro_mutex). '
+                'detail::Spinlock lock / unlock (unit spinlock): rely/guarantee on the state word, at most one holder - the monitor assumption of the slow paths is discharged.',
         'note': 'SC atomics (C04 orders are not claimed for this class); fewer than 2^30 simultaneous readers / writers; the readers container is an abstract count (ReadersFIFO only selects the resume order); the token '
                 'meta-argument (other threads\' tokens are stable because every decrement is asserted to consume an own token) is a paper step; liveness itself is the property\'s premise - only the safety shadow is proved; '
                 'guard classes are in unit guards (an owning SharedGuard / UniqueGuard releases exactly once, in its own mode). Replay: the real SharedMutex in a CORO build of the tree under check (replay/shared_mutex.cpp: overlap counters, Try* checks, lost-wake-up watchdog, 4 option pairs).',
